@@ -65,8 +65,9 @@ def _classes():
 
 
 IDS = ["x", "y", "Pyro.Daemon", "", "relay"]
+_reg = st.tuples(st.just("register"), st.integers(0, 3), st.sampled_from([None, "x", "x", "x", "y", "Pyro.Daemon", ""]), st.booleans(), st.booleans())
 step = st.one_of(
-    st.tuples(st.just("register"), st.integers(0, 3), st.sampled_from([None, None, "x", "x", "y", "Pyro.Daemon", ""]), st.booleans(), st.booleans()),
+    _reg, _reg, _reg,
     st.tuples(st.just("unregister_obj"), st.integers(0, 3)),
     st.tuples(st.just("unregister_id"), st.sampled_from(["x", "y", "gen0", "gen1", "nope", "Pyro.Daemon"])),
     st.tuples(st.just("call"), st.sampled_from(["x", "y", "gen0", "gen1", "nope"])),
@@ -247,8 +248,12 @@ def run_case(case, servertype=None, keep=False):
                         viol("call-reaches-unregistered", "%s: id %r is not registered but the call was served by %r" % (label, rid, got[1]))
                         break
             elif op == "registered":
-                with live.proxy(srv.uri("Pyro.Daemon"), serializer=case["ser"]) as p:
-                    got = set(p.registered())
+                try:
+                    with live.proxy(srv.uri("Pyro.Daemon"), serializer=case["ser"]) as p:
+                        got = set(p.registered())
+                except Exception as x:
+                    viol("daemon-object-gone", "%s: the daemon's own object is not reachable: %r" % (label, x))
+                    break
                 want = set(model) | {"Pyro.Daemon", "relay"}
                 if got != want:
                     viol("registered-list", "%s: daemon reports %r, registered are %r" % (label, sorted(got), sorted(want)))
@@ -310,10 +315,14 @@ def run_case(case, servertype=None, keep=False):
                             pass
         if not V:
             # final consistency
-            with live.proxy(srv.uri("Pyro.Daemon"), serializer=case["ser"]) as p:
-                got = set(p.registered())
+            try:
+                with live.proxy(srv.uri("Pyro.Daemon"), serializer=case["ser"]) as p:
+                    got = set(p.registered())
+            except Exception as x:
+                viol("daemon-object-gone", "at the end the daemon's own object is not reachable: %r" % (x,))
+                got = None
             want = set(model) | {"Pyro.Daemon", "relay"}
-            if got != want:
+            if got is not None and got != want:
                 viol("registered-list", "at the end the daemon reports %r, registered are %r" % (sorted(got), sorted(want)))
     finally:
         try:
@@ -348,6 +357,22 @@ def _labels(case):
     return sorted(set(["ser:" + case["ser"]] + ["op:" + s[0] for s in case["steps"]]))
 
 
+CATALOGUE = [
+    [["register", 0, "x", False, False], ["register", 1, "x", False, False], ["call", "x"], ["registered"]],
+    [["register", 0, "x", False, False], ["register", 1, "x", True, False], ["unregister_obj", 0], ["call", "x"], ["registered"], ["uri", 0], ["give", 0], ["give", 1]],
+    [["register", 0, "x", False, False], ["register", 1, "x", True, False], ["uri", 0], ["proxyfor", 0], ["give", 0], ["call", "x"]],
+    [["register", 0, "x", False, True], ["register", 1, "x", True, False], ["drop", 0], ["call", "x"], ["registered"], ["give", 1]],
+    [["register", 0, "x", False, True], ["register", 1, "x", True, True], ["drop", 0], ["call", "x"], ["drop", 1], ["call", "x"], ["registered"]],
+    [["register", 0, "x", False, True], ["register", 0, None, False, False], ["register", 0, "y", False, True], ["registered"]],
+    [["register", 0, "x", False, False], ["unregister_id", "x"], ["give", 0], ["uri", 0], ["register", 1, "x", False, False], ["give", 0], ["uri", 0], ["unregister_obj", 0], ["call", "x"]],
+    [["register", 0, None, False, False], ["unregister_id", "gen0"], ["register", 0, None, False, False], ["call", "gen1"], ["call", "gen0"], ["give", 0]],
+    [["unregister_id", "Pyro.Daemon"], ["daemon_ping"], ["registered"], ["register", 0, "Pyro.Daemon", False, False], ["daemon_ping"], ["registered"]],
+    [["register", 0, "x", False, True], ["give", 0], ["drop", 0], ["call", "x"], ["registered"], ["register", 1, "x", False, False], ["call", "x"]],
+    [["register", 0, "x", False, False], ["unregister_obj", 0], ["unregister_obj", 0], ["give", 0], ["register", 0, "x", False, False], ["call", "x"], ["give", 0]],
+    [["register", 0, "", False, False], ["register", 1, "", False, True], ["registered"], ["drop", 1], ["registered"], ["call", "gen0"], ["call", "gen1"]],
+]
+
+
 def SHARDS(tier):
     return [{"servertype": t} for t in ("thread", "multiplex")] * (4 if tier == "quick" else 8)
 
@@ -355,7 +380,12 @@ def SHARDS(tier):
 def run(ctx):
     st_ = ctx.shard.get("servertype", "thread")
     try:
-        ctx.search(case_strategy(), lambda c: run_case(c, st_, keep=True), ctx.n(150, 2500), nontrivial=_nontrivial, labels=_labels,
+        if ctx.shard.get("index", 0) < 2:
+            for ser in ("serpent", "json", "msgpack"):
+                for steps in CATALOGUE:
+                    case = {"ser": ser, "steps": steps}
+                    ctx.observe(case, run_case(case, st_, keep=True), True, _labels(case) + ["catalogue"])
+        ctx.search(case_strategy(), lambda c: run_case(c, st_, keep=True), ctx.n(400, 2500), nontrivial=_nontrivial, labels=_labels,
                    name="registry" + st_, max_rounds=8)
     finally:
         _teardown()
